@@ -2,7 +2,12 @@ package main
 
 import (
 	"fmt"
+	"go/token"
 	"regexp"
+
+	"golang.org/x/tools/go/ssa"
+	"golang.org/x/tools/go/ssa/ssautil"
+
 	"go/constant"
 	"go/types"
 	"math/big"
@@ -23,18 +28,18 @@ var (
 
 // SpecEnv is the context in which a spec expression is evaluated.
 type SpecEnv struct {
-	e      *Exec
-	st     *State
-	vars   map[string]Value
-	view   *HeapView // nil: current heap of st
-	old    *HeapView // what old(...) switches to
-	pkg    *types.Package
-	trace  []Event // events visible to trace predicates
-	oldTop Term    // allocTop at the "old" point (for fresh())
-	oldNow Term
+	e       *Exec
+	st      *State
+	vars    map[string]Value
+	view    *HeapView // nil: current heap of st
+	old     *HeapView // what old(...) switches to
+	pkg     *types.Package
+	trace   []Event // events visible to trace predicates
+	oldTop  Term    // allocTop at the "old" point (for fresh())
+	oldNow  Term
 	inQuant int
-	what   string
-	iter   *iterState
+	what    string
+	iter    *iterState
 }
 
 func (env *SpecEnv) child() *SpecEnv {
@@ -133,6 +138,14 @@ func (env *SpecEnv) specType(s string) types.Type {
 				return tn.Type()
 			}
 		}
+	}
+	// type literals (struct{...}, map[..].., func(...)) through the type checker
+	pkg := env.pkg
+	if pkg == nil {
+		pkg = env.e.eng.spkgs["server"].Pkg
+	}
+	if tv, err := types.Eval(env.e.eng.fset, pkg, token.NoPos, s); err == nil && tv.IsType() {
+		return tv.Type
 	}
 	specFail("unknown type %s", s)
 	return nil
@@ -804,6 +817,124 @@ func (env *SpecEnv) evalCall(x *SExpr) Value {
 			arr = env.e.curIn(env.view, "ghost:bytes$str", SStr, false)
 		}
 		return strV(Select(arr, sliceBase(v)))
+	case "fmt.Sprintf":
+		f := t1(0)
+		var leaves []Term
+		var sorts []Sort
+		for i := 1; i < len(args); i++ {
+			v := ev(i)
+			for _, l := range v.L {
+				leaves = append(leaves, l)
+				sorts = append(sorts, l.Sort)
+			}
+		}
+		fname := env.e.sprintfName(f.S, sorts)
+		env.e.declareFun(fname, sorts, SStr)
+		return strV(App(SStr, fname, leaves...))
+	case "boundmethod":
+		// boundmethod(f, "(*server.Target).rewrite", recv): f is the method value recv.rewrite
+		f := ev(0)
+		if args[1].Op != "str" {
+			specFail("boundmethod: second argument must be a string literal")
+		}
+		key := args[1].Name + "$bound"
+		fn := env.e.eng.funcs[key]
+		if fn == nil {
+			// bound wrappers are created lazily by go/ssa; find by name among all functions
+			for f2 := range ssautilAll(env.e.eng) {
+				if fnKey(f2) == key {
+					fn = f2
+					break
+				}
+			}
+		}
+		if fn == nil {
+			specFail("boundmethod: no function %s", key)
+		}
+		recv := ev(2)
+		fa := env.e.cur(env.st, "ghost:closure$fn", SInt, false)
+		ba := env.e.cur(env.st, "ghost:closure$b0", SInt, false)
+		if env.view != nil {
+			fa = env.e.curIn(env.view, "ghost:closure$fn", SInt, false)
+			ba = env.e.curIn(env.view, "ghost:closure$b0", SInt, false)
+		}
+		return boolV(And(Eq(Select(fa, f.L[0]), IntLit(int64(env.e.fnID(fn)))), Eq(Select(ba, f.L[0]), refLeaf(recv))))
+	case "unbox":
+		// unbox(x, T): the value of dynamic type T held by interface x
+		v := ev(0)
+		if !isIface(v.T) {
+			specFail("unbox on non-interface")
+		}
+		t := env.specType(args[1].String())
+		if pointerShaped(t) {
+			return Value{T: t, L: []Term{v.L[1]}}
+		}
+		bt := boxType(t)
+		return env.e.loadPlace(env.st, &Place{Kind: PField, Base: v.L[1], Root: bt, Path: ".v", Typ: t}, env.view)
+	case "mkiface":
+		return Value{T: types.NewInterfaceType(nil, nil), L: []Term{t1(0), t1(1)}}
+	case "dyntype":
+		v := ev(0)
+		if !isIface(v.T) {
+			specFail("dyntype on non-interface")
+		}
+		return intV(v.L[0])
+	case "errors.Is":
+		a, b := ev(0), ev(1)
+		env.e.declareFun("sf.errIs", []Sort{SInt, SInt, SInt, SInt}, SBool)
+		return boolV(App(SBool, "sf.errIs", a.L[0], a.L[1], b.L[0], b.L[1]))
+	case "errors.As", "errAsT", "errAsV":
+		// errors.As(err, T): T is the type of the target variable (e.g. *net/http.MaxBytesError, net.Error)
+		a := ev(0)
+		t := env.specType(args[1].String())
+		tid := IntLit(int64(env.e.eng.typeID(types.NewPointer(t))))
+		switch name {
+		case "errors.As":
+			env.e.declareFun("sf.errAs", []Sort{SInt, SInt, SInt}, SBool)
+			return boolV(App(SBool, "sf.errAs", a.L[0], a.L[1], tid))
+		case "errAsT":
+			env.e.declareFun("sf.errAsT", []Sort{SInt, SInt, SInt}, SInt)
+			return intV(App(SInt, "sf.errAsT", a.L[0], a.L[1], tid))
+		default:
+			env.e.declareFun("sf.errAsV", []Sort{SInt, SInt, SInt}, SInt)
+			return intV(App(SInt, "sf.errAsV", a.L[0], a.L[1], tid))
+		}
+	case "origin":
+		// the request a re-contexted request derives from
+		v := ev(0)
+		arr := env.e.cur(env.st, "ghost:reqOrigin", SInt, false)
+		if env.view != nil {
+			arr = env.e.curIn(env.view, "ghost:reqOrigin", SInt, false)
+		}
+		o := Select(arr, refLeaf(v))
+		return Value{T: tRef, L: []Term{Ite(Eq(o, Zero), refLeaf(v), o)}}
+	case "ctxval":
+		// ctxval(r, "server.contextKey:error-response"): payload stored under that key in r's context
+		r := ev(0)
+		k := t1(1)
+		rp := env.e.reqCtxPlace(r)
+		cv := env.e.loadPlace(env.st, rp, env.view)
+		vv := env.e.cur(env.st, "ghost:ctx$valV", ArrS(SStr, SInt), false)
+		if env.view != nil {
+			vv = env.e.curIn(env.view, "ghost:ctx$valV", ArrS(SStr, SInt), false)
+		}
+		return Value{T: tRef, L: []Term{Select(Select(vv, cv.L[1]), k)}}
+	case "ctxtyp":
+		r := ev(0)
+		k := t1(1)
+		rp := env.e.reqCtxPlace(r)
+		cv := env.e.loadPlace(env.st, rp, env.view)
+		vt := env.e.cur(env.st, "ghost:ctx$valT", ArrS(SStr, SInt), false)
+		if env.view != nil {
+			vt = env.e.curIn(env.view, "ghost:ctx$valT", ArrS(SStr, SInt), false)
+		}
+		return intV(Select(Select(vt, cv.L[1]), k))
+	case "typeid":
+		return intV(IntLit(int64(env.e.eng.typeID(env.specType(args[0].String())))))
+	case "as":
+		// as(x, *T): reinterpret a reference as a typed pointer
+		v := ev(0)
+		return Value{T: env.specType(args[1].String()), L: []Term{refLeaf(v)}}
 	case "isnil":
 		return boolV(Eq(refLeaf(ev(0)), Zero))
 	case "ref":
@@ -1099,4 +1230,8 @@ func (env *SpecEnv) evalTrace(pred string, args []*SExpr) Value {
 	}
 	specFail("unknown trace predicate %s", pred)
 	return Value{}
+}
+
+func ssautilAll(eng *Engine) map[*ssa.Function]bool {
+	return ssautil.AllFunctions(eng.prog)
 }
